@@ -43,9 +43,13 @@ import (
 //     harness holds RLock like a lookup in its critical section; the update must wait - decided from its goroutine
 //     state - and complete once the reader is gone)
 //
-// Known deviation C26-K1: the re-keying is global (one map keyed by announcing block / one database key) while the
-// skip belongs to one fork. Lookups and updates for a header H are "tainted" when an announcer on H's own chain was
-// re-keyed on behalf of a block that is not on H's chain; only those are judged by the known-finding predicate.
+// Known deviation C26-K1: the re-keying is global (one map keyed by epoch -> announcing block / one database key per
+// epoch) while the skip belongs to one fork. Attribution is decided by a DEVIATION MODEL (c26Dev below): next to the
+// spec model (per-fork ground truth) the harness simulates what the global re-keying does to the two maps
+// epoch -> {announcer} and to the database definitions (moves on every re-keying event, deletions / persists on every
+// finalisation, inserts on every announcement). A result that differs from the spec is attributed to C26-K1 iff it equals
+// what the deviation model predicts for that call (same error-ness, same announcer's data) AND a re-keying event touched
+// a map / database key the call reads; everything else stays a violation.
 // ---------------------------------------------------------------------------
 
 type c26SkipFin struct {
@@ -66,11 +70,7 @@ type c26Rekey struct {
 	owner int // tree index of the block that entered epoch c (-1: it was not imported)
 	aED   int // tree index of the announcer whose epoch data is expected to be moved, -1 none
 	aCD   int
-	// announcers that MAY have been moved: the expected one, and - when the re-keying itself ran on a tainted header
-	// (an announcer of its chain sits under key k because another fork moved it there) - those as well
-	candED, candCD []int
-	uncE, uncC     bool // the re-keying ran tainted: which of the candidates moved is unknown, also for the owner's own subtree
-	flow           int
+	flow  int
 }
 
 type c26SkipRun struct {
@@ -81,6 +81,7 @@ type c26SkipRun struct {
 	idx  []int // spec index -> tree index, -1 = not imported
 	head int   // tree index of the finalised head
 	ops  []c26Rekey
+	dev  *c26Dev
 	log  []string
 
 	rekeys       int // re-keyings executed so far in this case
@@ -132,45 +133,292 @@ func (w *c26World) expectedCD(h int, e uint64) []int {
 	return nil
 }
 
-// tainted: an announcer on the chain of tree block h was (or may have been) re-keyed for a block that is not on that chain (C26-K1).
-func (s *c26SkipRun) taintedED(h int, e uint64) bool {
-	return len(s.taintersED(h, e)) > 0
+// ---------------------------------------------------------------------------
+// Deviation model of C26-K1: a simulation of the two in-memory maps (epoch -> set of announcing blocks) and of the
+// persisted definitions (epochdata<e> / configdata<e>), identified by announcer tree index. Written from the
+// documented behaviour of dot/state/epoch.go, not copied from it:
+//
+//	announcement of block x (nominal epoch n)   mem[n] += x
+//	re-keying k -> c for a header on chain H    database definition of k present: it becomes the definition of c (the one
+//	                                            of k is removed, an existing one of c is overwritten); else ONE entry of mem[k]
+//	                                            that is H or an ancestor of H moves to mem[c] (merged with what mem[c] holds;
+//	                                            which one, when several qualify, is Go map order: resolved from the observed map);
+//	                                            no such entry: error (epoch data) / nothing happens (config data)
+//	lookup (e, H)                               database definition of e, else any entry of mem[e] that is H or an ancestor
+//	                                            of H, else error; config: the same for e, e-1, .. 1, then genesis
+//	finalisation of F (n = epochOf(F)+1)        epoch data: nothing when the database defines n; error (nothing happens) when no
+//	                                            finalised block is in mem[n]; else it is persisted, every mem[e], e <= n, is
+//	                                            dropped (for e < n after persisting a finalised announcer when the database does
+//	                                            not define e). config: nothing when the database holds EPOCH data for n (the
+//	                                            code probes epochDataKey); nothing when mem[n] is absent or holds no finalised
+//	                                            block; else persisted and every mem[e], e <= n, dropped
+//
+// Without a re-keying event the model never departs from the spec: mem[n] then holds exactly the announcers with
+// nominal epoch n, and a finalised announcer is on the chain of every live block. touchedE / touchedC record the keys
+// a re-keying event wrote (k and c): only calls that read such a key can be attributed.
+// ---------------------------------------------------------------------------
+
+type c26Dev struct {
+	t                  *vTree
+	memE, memC         map[uint64]map[int]bool
+	dbE, dbC           map[uint64][]int // persisted definition of an epoch: the announcer(s) it may stem from
+	touchedE, touchedC map[uint64]bool
+	events             int // re-keying events that changed the simulated state
+	cfgDrops           int // config announcements dropped by a finalisation without being persisted
 }
 
-func (s *c26SkipRun) taintersED(h int, e uint64) (cands []int) {
-	for _, r := range s.ops {
-		if e != r.k && e != r.c {
-			continue
+func newC26Dev(t *vTree) *c26Dev {
+	return &c26Dev{t: t, memE: map[uint64]map[int]bool{}, memC: map[uint64]map[int]bool{}, dbE: map[uint64][]int{}, dbC: map[uint64][]int{},
+		touchedE: map[uint64]bool{}, touchedC: map[uint64]bool{}}
+}
+
+func (d *c26Dev) announce(x int, e uint64, epochData bool) {
+	m := d.memC
+	if epochData {
+		m = d.memE
+	}
+	if m[e] == nil {
+		m[e] = map[int]bool{}
+	}
+	m[e][x] = true
+}
+
+// cands: the entries of m[e] that are h or an ancestor of h (sorted); nil = the search fails.
+func (d *c26Dev) cands(m map[uint64]map[int]bool, e uint64, h int) (out []int) {
+	for a := range m[e] {
+		if d.t.isAncestorOrEq(a, h) {
+			out = append(out, a)
 		}
-		onChain := r.owner >= 0 && s.w.tree.isAncestorOrEq(r.owner, h)
-		for _, a := range r.candED {
-			if s.w.tree.isAncestorOrEq(a, h) && (r.uncE || !onChain) {
-				cands = append(cands, r.candED...)
-				break
+	}
+	sort.Ints(out)
+	return out
+}
+
+// lookupED: announcers whose data GetEpochDataRaw(e, header on the chain of h) may return; nil = error.
+func (d *c26Dev) lookupED(h int, e uint64) []int {
+	if v, ok := d.dbE[e]; ok {
+		return v
+	}
+	return d.cands(d.memE, e, h)
+}
+
+// lookupCD: announcers whose config GetConfigData(e, ..) may return; nil = the genesis configuration.
+func (d *c26Dev) lookupCD(h int, e uint64) []int {
+	for t := e; t >= 1; t-- {
+		if v, ok := d.dbC[t]; ok {
+			return v
+		}
+		if cs := d.cands(d.memC, t, h); len(cs) > 0 {
+			return cs
+		}
+	}
+	return nil
+}
+
+func (d *c26Dev) touchedCfgUpTo(e uint64) bool {
+	for k := range d.touchedC {
+		if k <= e {
+			return true
+		}
+	}
+	return false
+}
+
+// moveDB: the persisted definition of k becomes the definition of c.
+func (d *c26Dev) moveDB(db map[uint64][]int, touched map[uint64]bool, k, c uint64) {
+	db[c] = db[k]
+	delete(db, k)
+	touched[k], touched[c] = true, true
+	d.events++
+}
+
+// moveMem: announcer x moves from mem[k] to mem[c].
+func (d *c26Dev) moveMem(m map[uint64]map[int]bool, touched map[uint64]bool, k, c uint64, x int) {
+	delete(m[k], x) // the (possibly empty) entry of k stays, as in the code
+	if m[c] == nil {
+		m[c] = map[int]bool{}
+	}
+	m[c][x] = true
+	touched[k], touched[c] = true, true
+	d.events++
+}
+
+// pick resolves Go map order: the candidate that left key k of the observed map; the first one when undecidable.
+func (d *c26Dev) pick(cs []int, goneFromK func(x int) bool) (x int, resolved bool) {
+	if len(cs) == 1 {
+		return cs[0], true
+	}
+	var gone []int
+	for _, a := range cs {
+		if goneFromK(a) {
+			gone = append(gone, a)
+		}
+	}
+	if len(gone) == 1 {
+		return gone[0], true
+	}
+	return cs[0], false
+}
+
+// finalise applies Finalize* for the finalised block f of nominal next epoch n.
+func (d *c26Dev) finalise(f int, n uint64) {
+	persisted := func(m map[uint64]map[int]bool, e uint64) (out []int) {
+		for a := range m[e] {
+			if d.t.isAncestorOrEq(a, f) {
+				out = append(out, a)
+			}
+		}
+		sort.Ints(out)
+		return out
+	}
+	if _, ok := d.dbE[n]; !ok {
+		if ps := persisted(d.memE, n); len(ps) > 0 {
+			d.dbE[n] = ps
+			for e := range d.memE {
+				if e > n {
+					continue
+				}
+				if _, ok := d.dbE[e]; !ok {
+					if ps := persisted(d.memE, e); len(ps) > 0 {
+						d.dbE[e] = ps
+					}
+				}
+				delete(d.memE, e)
 			}
 		}
 	}
-	return cands
-}
-
-func (s *c26SkipRun) taintedCD(h int, e uint64) bool {
-	return len(s.taintersCD(h, e)) > 0
-}
-
-func (s *c26SkipRun) taintersCD(h int, e uint64) (cands []int) {
-	for _, r := range s.ops {
-		if r.k > e {
-			continue
-		}
-		onChain := r.owner >= 0 && s.w.tree.isAncestorOrEq(r.owner, h)
-		for _, a := range r.candCD {
-			if s.w.tree.isAncestorOrEq(a, h) && (r.uncC || !onChain) {
-				cands = append(cands, r.candCD...)
-				break
+	if _, ok := d.dbE[n]; ok {
+		return // FinalizeBABENextConfigData probes the epoch-data key
+	}
+	if ps := persisted(d.memC, n); len(ps) > 0 {
+		d.dbC[n] = ps
+		for e := range d.memC {
+			if e > n {
+				continue
 			}
+			if e < n {
+				d.cfgDrops += len(d.memC[e])
+			}
+			delete(d.memC, e)
 		}
 	}
-	return cands
+}
+
+// describe: the simulated maps and database definitions (witness of an attributed hit).
+func (d *c26Dev) describe() map[string]any {
+	mm := func(m map[uint64]map[int]bool) map[string][]int {
+		out := map[string][]int{}
+		for e, xs := range m {
+			l := []int{}
+			for x := range xs {
+				l = append(l, x)
+			}
+			sort.Ints(l)
+			out[fmt.Sprint(e)] = l
+		}
+		return out
+	}
+	dd := func(m map[uint64][]int) map[string][]int {
+		out := map[string][]int{}
+		for e, xs := range m {
+			out[fmt.Sprint(e)] = xs
+		}
+		return out
+	}
+	return map[string]any{"mem_epoch_data": mm(d.memE), "mem_config": mm(d.memC), "db_epoch_data": dd(d.dbE), "db_config": dd(d.dbC), "rekeying_events": d.events}
+}
+
+// edIn / cdIn: the returned value is the announcement of one of the blocks in cs.
+func (s *c26SkipRun) edIn(got *types.EpochDataRaw, cs []int) bool {
+	for _, a := range cs {
+		if b := s.w.tree.blocks[a]; got != nil && b.epochData != nil && reflect.DeepEqual(got, b.epochData.ToEpochDataRaw()) {
+			return true
+		}
+	}
+	return false
+}
+
+// devED: does the observed result of an epoch-data call equal the deviation model's prediction `pred`?
+func (s *c26SkipRun) devED(got *types.EpochDataRaw, gerr error, pred []int) bool {
+	if len(pred) == 0 {
+		return gerr != nil
+	}
+	return gerr == nil && s.edIn(got, pred)
+}
+
+func (s *c26SkipRun) devCD(got *types.ConfigData, gerr error, pred []int) bool {
+	return s.cfgOK(got, gerr, pred)
+}
+
+// goneE / goneC: announcer x is no longer under key k of the real map (read after the operation returned; the harness
+// is the only user of the state; TryRLock so that the harness can never park).
+func (s *c26SkipRun) goneE(k uint64) func(int) bool {
+	return func(x int) bool {
+		es := s.w.es
+		if !es.nextEpochDataLock.TryRLock() {
+			return false
+		}
+		defer es.nextEpochDataLock.RUnlock()
+		_, has := es.nextEpochData[k][s.w.tree.blocks[x].hash]
+		return !has
+	}
+}
+
+func (s *c26SkipRun) goneC(k uint64) func(int) bool {
+	return func(x int) bool {
+		es := s.w.es
+		if !es.nextConfigDataLock.TryRLock() {
+			return false
+		}
+		defer es.nextConfigDataLock.RUnlock()
+		_, has := es.nextConfigData[k][s.w.tree.blocks[x].hash]
+		return !has
+	}
+}
+
+// devRekeyED / devRekeyCD apply the re-keying k -> c requested for a header on the chain of tree block h to the
+// deviation model and return its prediction for the call: the announcers whose data may be returned (nil = the
+// memory search fails: an error for epoch data).
+func (s *c26SkipRun) devRekeyED(h int, k, c uint64) (pred []int) {
+	d := s.dev
+	if v, ok := d.dbE[k]; ok {
+		d.moveDB(d.dbE, d.touchedE, k, c)
+		return v
+	}
+	cs := d.cands(d.memE, k, h)
+	if len(cs) == 0 {
+		return nil
+	}
+	x, ok := d.pick(cs, s.goneE(k))
+	if !ok {
+		s.c.Count("deviation_model_map_order_unresolved", 1)
+	}
+	if len(cs) > 1 {
+		s.c.Count("deviation_model_rekey_with_several_candidates", 1)
+	}
+	d.moveMem(d.memE, d.touchedE, k, c, x)
+	return cs
+}
+
+func (s *c26SkipRun) devRekeyCD(h int, k, c uint64) (pred []int, found bool) {
+	d := s.dev
+	if v, ok := d.dbC[k]; ok {
+		d.moveDB(d.dbC, d.touchedC, k, c)
+		return v, true
+	}
+	cs := d.cands(d.memC, k, h)
+	if len(cs) == 0 {
+		return nil, false
+	}
+	x, ok := d.pick(cs, s.goneC(k))
+	if !ok {
+		s.c.Count("deviation_model_map_order_unresolved", 1)
+	}
+	if len(cs) > 1 {
+		s.c.Count("deviation_model_rekey_with_several_candidates", 1)
+	}
+	d.moveMem(d.memC, d.touchedC, k, c, x)
+	return cs, true
 }
 
 // guarded runs fn under the hang monitor and the findAncestor step budget.
@@ -197,11 +445,18 @@ func (s *c26SkipRun) guarded(name string, fn func() error) (cont bool, err error
 
 func (s *c26SkipRun) known(msg string, ex map[string]any) {
 	s.c.Count("k1_global_rekey_hits", 1)
+	if s.dev.cfgDrops > 0 && ex["query"] == "GetConfigData" {
+		// the re-keyed DATABASE definition made a later FinalizeBABENextEpochData fail, which let FinalizeBABENextConfigData drop
+		// earlier config announcements without persisting them (see NOTES.md): shown separately
+		s.c.Count("k1_hits_config_after_unpersisted_config_drop", 1)
+	}
+	ex["deviation_model"] = s.dev.describe()
 	s.c.Known("C26-K1", msg, s.wit(ex))
 }
 
-// checkED: one GetEpochDataRaw lookup judged against the announcers ann (empty: the lookup must fail).
-func (s *c26SkipRun) checkED(e uint64, hdr *types.Header, name string, ann []int, kind string, tainted bool) (cont bool) {
+// checkED: one GetEpochDataRaw lookup for a header on the chain of tree block h, judged against the announcers ann
+// (empty: the lookup must fail). correct: the result is the spec's.
+func (s *c26SkipRun) checkED(e uint64, hdr *types.Header, name string, ann []int, kind string, h int) (cont, correct bool) {
 	hd := *hdr
 	var got *types.EpochDataRaw
 	cont, gerr := s.guarded(fmt.Sprintf("GetEpochDataRaw(%d, %s)", e, name), func() (err error) {
@@ -209,7 +464,7 @@ func (s *c26SkipRun) checkED(e uint64, hdr *types.Header, name string, ann []int
 		return err
 	})
 	if !cont {
-		return false
+		return false, false
 	}
 	s.c.Eval(1)
 	s.c.Count("skipped_groups_epoch_data_lookups", 1)
@@ -225,13 +480,15 @@ func (s *c26SkipRun) checkED(e uint64, hdr *types.Header, name string, ann []int
 			ok = true
 		}
 	}
+	pred := s.dev.lookupED(h, e)
+	asDev := s.devED(got, gerr, pred)
 	if ok {
-		if tainted {
-			s.c.Count("tainted_lookups_nevertheless_correct", 1)
+		if !asDev {
+			s.c.Count("deviation_model_differs_from_correct_result", 1)
 		}
-		return true
+		return true, true
 	}
-	ex := map[string]any{"query": "GetEpochDataRaw", "epoch": e, "header": name, "epoch_kind": kind, "expected_announcers": ann, "err": fmt.Sprint(gerr)}
+	ex := map[string]any{"query": "GetEpochDataRaw", "epoch": e, "deviation_model_predicts_announcers": pred, "header": name, "epoch_kind": kind, "expected_announcers": ann, "err": fmt.Sprint(gerr)}
 	cls := "own_fork_data_not_found"
 	if gerr == nil {
 		ex["returned_announced_by"] = s.w.whoAnnouncedED(got)
@@ -241,12 +498,12 @@ func (s *c26SkipRun) checkED(e uint64, hdr *types.Header, name string, ann []int
 		}
 	}
 	msg := fmt.Sprintf("GetEpochDataRaw(%d, %s) [%s epoch]: expected the data announced by b%v (empty = an error), got err=%v data-of=%v", e, name, kind, ann, gerr, ex["returned_announced_by"])
-	if tainted {
+	if asDev && s.dev.touchedE[e] {
 		s.known(msg, ex)
-		return true
+		return true, false
 	}
 	s.c.Violation(cls, msg, s.wit(ex))
-	return false
+	return false, false
 }
 
 func (s *c26SkipRun) cfgOK(got *types.ConfigData, gerr error, want []int) bool {
@@ -265,7 +522,7 @@ func (s *c26SkipRun) cfgOK(got *types.ConfigData, gerr error, want []int) bool {
 	return false
 }
 
-func (s *c26SkipRun) checkCD(e uint64, hdr *types.Header, name string, want []int, tainted bool) (cont bool) {
+func (s *c26SkipRun) checkCD(e uint64, hdr *types.Header, name string, want []int, h int) (cont, correct bool) {
 	hd := *hdr
 	var got *types.ConfigData
 	cont, gerr := s.guarded(fmt.Sprintf("GetConfigData(%d, %s)", e, name), func() (err error) {
@@ -273,26 +530,31 @@ func (s *c26SkipRun) checkCD(e uint64, hdr *types.Header, name string, want []in
 		return err
 	})
 	if !cont {
-		return false
+		return false, false
 	}
 	s.c.Eval(1)
 	s.c.Count("skipped_groups_config_lookups", 1)
+	pred := s.dev.lookupCD(h, e)
+	asDev := s.devCD(got, gerr, pred)
 	if s.cfgOK(got, gerr, want) {
-		return true
+		if !asDev {
+			s.c.Count("deviation_model_differs_from_correct_result", 1)
+		}
+		return true, true
 	}
-	ex := map[string]any{"query": "GetConfigData", "epoch": e, "header": name, "expected_announcers": want, "err": fmt.Sprint(gerr)}
+	ex := map[string]any{"query": "GetConfigData", "epoch": e, "deviation_model_predicts_announcers": pred, "header": name, "expected_announcers": want, "err": fmt.Sprint(gerr)}
 	cls := "config_lookup_failed"
 	if gerr == nil {
 		ex["returned_announced_by"] = s.w.whoAnnouncedCD(got)
 		cls = "foreign_fork_config"
 	}
 	msg := fmt.Sprintf("GetConfigData(%d, %s): expected the config of b%v (empty = genesis), got err=%v config-of=%v", e, name, want, gerr, ex["returned_announced_by"])
-	if tainted {
+	if asDev && s.dev.touchedCfgUpTo(e) {
 		s.known(msg, ex)
-		return true
+		return true, false
 	}
 	s.c.Violation(cls, msg, s.wit(ex))
-	return false
+	return false, false
 }
 
 // mapFingerprint of an in-memory announcement map (caller holds the read lock or is the only user).
@@ -401,18 +663,16 @@ func (s *c26SkipRun) rekey(i, pt int, h *types.Header, k, c uint64) (cont, accep
 	flow, hold := s.sp.Flow[i], s.sp.Hold[i]
 	annED := w.announcers(pt, k, true)
 	annCD := w.announcers(pt, k, false)
-	tE, tC := s.taintersED(pt, k), s.taintersCD(pt, k)
-	taintE, taintC := len(tE) > 0, len(tC) > 0
 	// (the ancestry of the not yet imported header h is its parent's: h itself announces for later epochs only)
 	op := c26Rekey{k: k, c: c, owner: -1, aED: -1, aCD: -1, flow: flow}
+	// attribution needs a re-keying event EARLIER in the history that wrote a key this call reads
+	touchedE, touchedC := s.dev.touchedE[k], s.dev.touchedCfgUpTo(k)
 	if len(annED) > 0 {
 		op.aED = annED[0]
 	}
 	if len(annCD) > 0 {
 		op.aCD = annCD[0]
 	}
-	op.candED, op.uncE = append(append([]int{}, annED...), tE...), taintE
-	op.candCD, op.uncC = append(append([]int{}, annCD...), tC...), taintC
 	inDB := false
 	if v, err := w.es.db.Get(epochDataKey(k)); err == nil && v != nil {
 		inDB = true
@@ -449,6 +709,14 @@ func (s *c26SkipRun) rekey(i, pt int, h *types.Header, k, c uint64) (cont, accep
 		}
 		s.c.Eval(1)
 		s.logf("%s -> %s (epoch data of %d in database before: %v; announcers on the chain: data b%v config b%v)", name, c26Outcome(err), k, inDB, annED, annCD)
+		// deviation model: the epoch data first; the config data only when that succeeded
+		predE := s.devRekeyED(pt, k, c)
+		if len(predE) > 0 {
+			s.devRekeyCD(pt, k, c)
+		}
+		if (err == nil) != (len(predE) > 0) {
+			s.c.Count("deviation_model_differs_on_update_outcome", 1)
+		}
 		switch {
 		case err == nil && len(annED) > 0:
 			s.c.Count("skipped_updates_executed", 1)
@@ -470,9 +738,9 @@ func (s *c26SkipRun) rekey(i, pt int, h *types.Header, k, c uint64) (cont, accep
 		default:
 			ex := map[string]any{"operation": name, "err": err.Error(), "expected_announcers_epoch_data": annED, "expected_announcers_config": annCD}
 			msg := fmt.Sprintf("%s failed (%v) although b%v on the block's own chain announced the data of epoch %d (config announcers on the chain: b%v)", name, err, annED, k, annCD)
-			if taintE || taintC {
+			if len(predE) == 0 && touchedE {
+				// an earlier re-keying took the chain's announcer away from key k: the deviation model fails as well
 				s.known(msg, ex)
-				// the epoch data may or may not have been moved before the failure: everything below the announcers stays tainted
 				s.ops = append(s.ops, op)
 				return true, false
 			}
@@ -493,6 +761,7 @@ func (s *c26SkipRun) rekey(i, pt int, h *types.Header, k, c uint64) (cont, accep
 		}
 		s.c.Eval(1)
 		s.logf("%s -> %s (in database before: %v; announcers on the chain: b%v)", name, c26Outcome(err), inDB, annED)
+		predE := s.devRekeyED(pt, k, c)
 		ok := false
 		if len(annED) == 0 {
 			ok = err != nil
@@ -503,19 +772,23 @@ func (s *c26SkipRun) rekey(i, pt int, h *types.Header, k, c uint64) (cont, accep
 			}
 		}
 		if !ok {
-			ex := map[string]any{"operation": name, "err": fmt.Sprint(err), "expected_announcers": annED}
+			ex := map[string]any{"operation": name, "err": fmt.Sprint(err), "expected_announcers": annED, "deviation_model_predicts_announcers": predE}
 			cls := "own_fork_data_not_found"
 			if err == nil {
 				ex["returned_announced_by"] = w.whoAnnouncedED(gotE)
 				cls = "foreign_fork_data"
 			}
 			msg := fmt.Sprintf("%s: expected the data announced by b%v (empty = an error), got err=%v data-of=%v", name, annED, err, ex["returned_announced_by"])
-			if taintE {
+			if touchedE && s.devED(gotE, err, predE) {
 				s.known(msg, ex)
+				s.ops = append(s.ops, op)
 				return true, false
 			}
 			s.c.Violation(cls, msg, s.wit(ex))
 			return false, false
+		}
+		if !s.devED(gotE, err, predE) {
+			s.c.Count("deviation_model_differs_from_correct_result", 1)
 		}
 		if err != nil {
 			s.c.Count("skipped_getter_without_own_announcement_failed", 1)
@@ -538,15 +811,19 @@ func (s *c26SkipRun) rekey(i, pt int, h *types.Header, k, c uint64) (cont, accep
 		}
 		s.c.Eval(1)
 		s.logf("%s -> %s (expected config of b%v)", name, c26Outcome(err), want)
+		predC, found := s.devRekeyCD(pt, k, c)
+		if !found {
+			predC = s.dev.lookupCD(pt, k-1) // nothing for the skipped epoch: the latest earlier configuration
+		}
 		if !s.cfgOK(gotC, err, want) {
-			ex := map[string]any{"operation": name, "err": fmt.Sprint(err), "expected_announcers": want}
+			ex := map[string]any{"operation": name, "err": fmt.Sprint(err), "expected_announcers": want, "deviation_model_predicts_announcers": predC}
 			cls := "config_lookup_failed"
 			if err == nil {
 				ex["returned_announced_by"] = w.whoAnnouncedCD(gotC)
 				cls = "foreign_fork_config"
 			}
 			msg := fmt.Sprintf("%s: expected the config of b%v (empty = genesis), got err=%v config-of=%v", name, want, err, ex["returned_announced_by"])
-			if taintC || s.taintedCD(pt, k) {
+			if touchedC && s.devCD(gotC, err, predC) {
 				s.known(msg, ex)
 			} else {
 				s.ops = append(s.ops, op)
@@ -554,6 +831,9 @@ func (s *c26SkipRun) rekey(i, pt int, h *types.Header, k, c uint64) (cont, accep
 				return false, false
 			}
 		} else {
+			if !s.devCD(gotC, err, predC) {
+				s.c.Count("deviation_model_differs_from_correct_result", 1)
+			}
 			s.c.Count("skipped_config_getters_correct", 1)
 			if len(annCD) == 0 {
 				s.c.Count("skipped_config_getter_fell_back_to_earlier_config", 1)
@@ -624,10 +904,10 @@ func (s *c26SkipRun) importBlock(i int) (cont bool) {
 			if skipping || kind == "absent" {
 				ann, kind = w.announcers(pt, d, true), "next"
 			}
-			if !s.checkED(d, h, name, ann, kind+"/verify-time", s.taintedED(pt, d)) {
+			if cont, _ := s.checkED(d, h, name, ann, kind+"/verify-time", pt); !cont {
 				return false
 			}
-			if !s.checkCD(d, h, name, w.expectedCD(pt, d), s.taintedCD(pt, d)) {
+			if cont, _ := s.checkCD(d, h, name, w.expectedCD(pt, d), pt); !cont {
 				return false
 			}
 			s.c.Count("verify_time_lookups_on_unimported_header", 1)
@@ -675,6 +955,7 @@ func (s *c26SkipRun) importBlock(i int) (cont bool) {
 			s.c.Inconclusive(fmt.Sprintf("HandleBABEDigest spec block %d: %v", i, err))
 			return false
 		}
+		s.dev.announce(x, w.epochOf(x)+1, kind == "NextEpochData")
 		if s.rekeys > 0 {
 			s.writersAfter++
 			s.c.Count("writers_after_skipped_update", 1)
@@ -713,6 +994,7 @@ func (s *c26SkipRun) finalise(f int) (cont bool) {
 		s.c.Count("finalisations_after_skipped_update", 1)
 	}
 	s.head = f
+	s.dev.finalise(f, w.epochOf(f)+1)
 	return true
 }
 
@@ -745,7 +1027,6 @@ func (s *c26SkipRun) sweep() (cont bool) {
 		sort.Slice(order, func(i, j int) bool { return order[i] < order[j] })
 		for _, e := range order {
 			ann, kind := w.expectedED(x, e)
-			taint := s.taintedED(x, e)
 			if kind == "absent" && !skippedHere[e] {
 				continue
 			}
@@ -755,27 +1036,28 @@ func (s *c26SkipRun) sweep() (cont bool) {
 					rekeyed = true
 				}
 			}
-			if !s.checkED(e, b.header, name, ann, kind, taint) {
+			cont, correct := s.checkED(e, b.header, name, ann, kind, x)
+			if !cont {
 				return false
 			}
 			switch {
-			case rekeyed && !taint:
+			case rekeyed && correct:
 				s.c.Count("rekeyed_epoch_data_lookups_correct", 1)
 				if w.otherForkAnnounces(x, ann0(ann, w), true) {
 					s.c.Count("rekeyed_epoch_data_correct_with_competing_fork_announcer", 1)
 				}
-			case kind == "absent" && !taint:
+			case kind == "absent" && correct:
 				s.c.Count("skipped_epoch_key_gone_after_rekey", 1)
 			}
 			if kind == "absent" {
 				continue // config of an epoch that does not exist on the chain: not defined by the property
 			}
 			want := w.expectedCD(x, e)
-			ctaint := s.taintedCD(x, e)
-			if !s.checkCD(e, b.header, name, want, ctaint) {
+			cont, correct = s.checkCD(e, b.header, name, want, x)
+			if !cont {
 				return false
 			}
-			if !ctaint && len(want) > 0 {
+			if correct && len(want) > 0 {
 				for _, r := range s.ops {
 					if r.owner >= 0 && w.tree.isAncestorOrEq(r.owner, x) && r.aCD == want[0] && e >= r.c {
 						s.c.Count("rekeyed_config_lookups_correct", 1)
@@ -805,7 +1087,7 @@ func runC26Skipped(c *vcommon.Case, sp *c26SkipSpec) {
 	}
 	defer closeFn()
 	defer verifFindAncestorBudget.Store(0)
-	s := &c26SkipRun{c: c, g: g, w: w, sp: sp, idx: make([]int, len(sp.Tree.Blocks))}
+	s := &c26SkipRun{c: c, g: g, w: w, sp: sp, idx: make([]int, len(sp.Tree.Blocks)), dev: newC26Dev(w.tree)}
 	for i := range s.idx {
 		s.idx[i] = -1
 	}
